@@ -518,14 +518,18 @@ fn main() {
             let pre_op = if kind == "Stack" { "push" } else if kind.starts_with("Pool") { "alloc" } else { "send" };
             if kind.starts_with("OgreArc") { obj.op("create", prefill[0], &[]); for _ in 1..threads.len() { obj.op("handle", 0, &[]); } }
             else { for v in &prefill { obj.op(pre_op, *v, &[]); } }
-            let barrier = Arc::new(std::sync::Barrier::new(threads.len()));
+            // a SPIN barrier: all threads leave it within nanoseconds of each other, which makes the races the model found (windows of a
+            // few instructions) likely instead of once-in-a-million; every 3rd round staggers the threads by a few hundred spins
+            let barrier = Arc::new(AtomicUsize::new(0)); let nthreads = threads.len();
             let out = Arc::new(Mutex::new(Vec::<String>::new()));
             let mut hs = vec![];
             for (t, prog) in threads.iter().cloned().enumerate() {
                 let obj = obj.clone(); let out = out.clone(); let barrier = barrier.clone(); let is_arc = kind.starts_with("OgreArc");
                 hs.push(std::thread::spawn(move || {
                     let mut prev: Vec<u64> = vec![]; let mut lines = vec![];
-                    barrier.wait();
+                    barrier.fetch_add(1, SeqCst);
+                    while barrier.load(SeqCst) < nthreads { std::hint::spin_loop(); }
+                    if round % 3 != 0 { for _ in 0..((round * 37 + t * 101) % 400) { std::hint::spin_loop(); } }
                     for (j, (name, argtxt)) in prog.iter().enumerate() {
                         let arg: u64 = if let Some(k) = argtxt.strip_prefix('r') { prev[k.parse::<usize>().unwrap()] } else if is_arc && name != "alloc" { t as u64 } else { argtxt.parse().unwrap() };
                         let first = CLOCK.fetch_add(1, SeqCst);
